@@ -830,6 +830,38 @@ class Normalizer:
                                 self.loop_inits[(d, k)] = inits[v]
                         except Exception:  # noqa
                             pass
+            # N38: a counting while - `v = a; while v > c: B; v = v - 1` (or `<` / `<=` / `>=` with a step of +-1, c loop-invariant, the step the
+            # only change of v) - is `for j in range(a - c): B` with v = a - j
+            if isinstance(st, ast.While) and isinstance(header, tuple) and header[0] == 'while' and isinstance(header[1], tuple) and header[1] \
+                    and header[1][0] == 'cmp' and len(header[1]) == 4:
+                _, cop, cl, cr = header[1]
+                for k, v in enumerate(carried):
+                    if v == '$eff':
+                        continue
+                    lvk = ('lv', d, k)
+                    if cl == lvk and not self._mentions_loop(cr, d):
+                        bound, op_ = cr, cop
+                    elif cr == lvk and not self._mentions_loop(cl, d):
+                        bound, op_ = cl, {'<': '>', '>': '<', '<=': '>=', '>=': '<='}.get(cop)
+                    else:
+                        continue
+                    step = 1 if bodies[v] == self.int_add(lvk, 1) else (-1 if bodies[v] == self.int_add(lvk, -1) else 0)
+                    a_ = inits[v]
+                    if not step or not isinstance(a_, tuple) or not self.is_int_term(a_) or not self.is_int_term(bound):
+                        continue
+                    if step == -1 and op_ in ('>', '>='):
+                        trip = self.binop('-', a_, bound) if op_ == '>' else self.int_add(self.binop('-', a_, bound), 1)
+                        cur = self.binop('-', a_, ('iv', d))
+                    elif step == 1 and op_ in ('<', '<='):
+                        trip = self.binop('-', bound, a_) if op_ == '<' else self.int_add(self.binop('-', bound, a_), 1)
+                        cur = self.binop('+', a_, ('iv', d))
+                    else:
+                        continue
+                    header = ('for', ('call', 'range', (trip,), ()))
+                    self.loop_headers[d] = header
+                    for v2 in carried:
+                        bodies[v2] = self._resubst(bodies[v2], lvk, cur)
+                    break
             # N36: a placeholder list `[x] * (T + 1)` whose element T is stored before `for i in range(T)` and whose element i is stored by the
             # loop (or `[x] * T` with every element stored by the loop) has every element overwritten: the placeholder item is immaterial
             if isinstance(st, ast.For) and header[1][0] == 'call' and header[1][1] == 'range' and len(header[1][2]) == 1 and not header[1][3]:
@@ -1070,6 +1102,16 @@ class Normalizer:
             return a
         if a == ('k', True) and b == ('k', False) and c[0] in ('cmp', 'and', 'or', 'not'):
             return c
+        # N40: a conditional element store is an unconditional store of a conditional value:
+        #      `if c: A[i] = v`  is  `A[i] = v if c else A[i]`   (scalar index, no slices: the element keeps its value otherwise)
+        if isinstance(a, tuple) and isinstance(b, tuple) and a and b and a[0] == 'store' and b[0] == 'store' and len(a) == 4 and len(b) == 4 \
+                and a[1] == b[1] and a[2] == b[2] and not any(isinstance(it, tuple) and it and it[0] == 'sl' for it in a[2]):
+            return self.store(a[1], a[2], self.ite(c, a[3], b[3]))
+        for x_, y_, sw in ((a, b, False), (b, a, True)):
+            if isinstance(x_, tuple) and x_ and x_[0] == 'store' and len(x_) == 4 and x_[1] == y_ \
+                    and not any(isinstance(it, tuple) and it and it[0] == 'sl' for it in x_[2]):
+                old_ = self.index(y_, x_[2])
+                return self.store(y_, x_[2], self.ite(c, old_, x_[3]) if sw else self.ite(c, x_[3], old_))
         # N31: conditionals between truth values are connectives - `if c: return True; return x` is `c or x`
         BOOLISH = ('cmp', 'and', 'or', 'not')
         if c[0] in BOOLISH:
@@ -1423,6 +1465,29 @@ class Normalizer:
             return self.ite(x[1], self.none_test(canon_cmp(op, x[2], ('k', None))), self.none_test(canon_cmp(op, x[3], ('k', None))))
         return t
 
+    def _resubst(self, t, what, by, memo=None):
+        """`t` with every occurrence of the term `what` replaced by `by`, arithmetic and indexing on the way up re-normalised"""
+        memo = {} if memo is None else memo
+        if not isinstance(t, tuple) or not t:
+            return t
+        if t == what:
+            return by
+        k_ = id(t)
+        if k_ in memo:
+            return memo[k_][1]
+        if t[0] == 'bin' and len(t) == 4:
+            a, b = self._resubst(t[2], what, by, memo), self._resubst(t[3], what, by, memo)
+            r = t if (a is t[2] and b is t[3]) else self.binop(t[1], a, b)
+        elif t[0] == 'idx' and len(t) == 3:
+            bs = self._resubst(t[1], what, by, memo)
+            its = tuple(self._resubst(it, what, by, memo) for it in t[2])
+            r = t if (bs is t[1] and all(x is y for x, y in zip(its, t[2]))) else self.index(bs, its)
+        else:
+            parts = tuple(self._resubst(y, what, by, memo) for y in t)
+            r = t if all(x is y for x, y in zip(parts, t)) else parts
+        memo[k_] = (t, r)
+        return r
+
     def _forward_write_once(self, b, e):
         """N37: `L[e]` where L is the list a finished loop `for i in range(T)` filled by the single store `L[i + c] = g` (one element per round,
         never touched again): for e - c provably in [0, T) the element is g of round e - c.  g may read, besides loop-invariant values, the
@@ -1526,6 +1591,9 @@ class Normalizer:
         ti = self._tuple_item(b, items)
         if ti is not None:
             return ti
+        # N39: x.shape[0] is len(x) (wherever x has a shape)
+        if b[0] == 'attr' and len(b) == 3 and b[2] == 'shape' and len(items) == 1 and is_num(items[0], 0):
+            return self.fn_call('len', (b[1],), ())
         if b[0] == 'lout' and isinstance(b[1], tuple) and b[1] and b[1][0] == 'rawloop' and len(items) == 1 and not (isinstance(items[0], tuple) and items[0][0] == 'sl'):
             fw = self._forward_write_once(b, items[0])
             if fw is not None:
@@ -1540,6 +1608,8 @@ class Normalizer:
             vs = self.shape(v)
             if nsl == 0 and self._list_root(b[1]):
                 return v
+            if nsl == 0 and self.shape(v) == () and not self.is_list_value(b[1]):
+                return v                # a scalar read back from the float array it was just stored in
             if nsl > 0 and vs is not None and not (vs and vs[0] == 'tuple') and len(vs) == nsl and all(isinstance(x, int) and x > 1 for x in vs):
                 return v
         # N14: chained indexing X[i][j] == X[i, j] for scalar i
@@ -1592,6 +1662,13 @@ class Normalizer:
 
     def store(self, cur, items, v):
         """functional update cur[items] = v; folds constant-region stores into fresh arrays into blocks."""
+        # N41: a store over exactly the element just stored replaces it;  storing back the element that is there changes nothing
+        if isinstance(cur, tuple) and cur and cur[0] == 'store' and len(cur) == 4 and cur[2] == items \
+                and not any(isinstance(it, tuple) and it and it[0] == 'sl' for it in items):
+            return self.store(cur[1], items, v)
+        if isinstance(v, tuple) and v and v[0] == 'idx' and len(v) == 3 and v[1] == cur and v[2] == items \
+                and not any(isinstance(it, tuple) and it and it[0] == 'sl' for it in items):
+            return cur
         if isinstance(cur, tuple) and cur[0] == 'lam' and len(items) == 1 and isinstance(items[0], tuple) and items[0][0] == 'iv' \
                 and self.loop_headers.get(items[0][1]) == ('for', ('call', 'range', (cur[2],), ())):
             # N18: a[i] = v with i the variable of `for i in range(n)` and a of length n (always in range):  j -> v if j == i else a[j]
@@ -1832,6 +1909,14 @@ class Normalizer:
                 return self.dot(args[0], args[1])                      # N4
             if name == 'SafeClip' and len(args) == 3:
                 return ('call', 'SafeClip', args, ())
+        if name == 'len' and len(args) == 1 and not kwargs:
+            # N42: the length of a value whose first extent is known - a constant, or the contract symbol it shares with other values
+            sh_ = self.shape(args[0])
+            if isinstance(sh_, tuple) and sh_ and sh_[0] != 'tuple' and not self.is_list_value(args[0]):
+                if isinstance(sh_[0], int):
+                    return num(sh_[0])
+                if isinstance(sh_[0], str) and sh_[0] not in ('?',):
+                    return ('call', 'len', (('ext', sh_[0]),), ())
         if name == 'reversed' and len(args) == 1 and not kwargs and args[0][0] == 'call' and args[0][1] == 'range' and not args[0][3]:
             # N19: reversed(range(a, b)) visits b-1, ..., a: the iteration range(b - 1, a - 1, -1)
             r = args[0][2]
